@@ -24,7 +24,7 @@ RULE = ('(a) the C03 history generator (minus queue/sorted-iteration calls Fanou
         '(key class, shard count, hash-seed pair) routing cells')
 DISTINCT = ('cells', 'routing_cells')
 REQUIRED = ('calls_judged', 'histories', 'shard_counts_seen', 'keys_cross_process', 'golden_hashes_compared',
-            'equal_key_pairs', 'check_damage_cases', 'aggregate_calls', 'partial_reopen_cases', 'handle_exchanges', 'skewed_culls')
+            'equal_key_pairs', 'check_damage_cases', 'aggregate_calls', 'partial_reopen_cases', 'handle_exchanges', 'skewed_culls', 'settings_reloaded_through_another_handle')
 ASSUMPTIONS = ('iteration order over shards is shard-major by design: compared as a permutation',
                'golden routing was recorded from the pinned commit by tools/mkgolden.py')
 
@@ -429,6 +429,53 @@ def skewed_cull(dc, sc, res, rng, shards, label):
         sc.drop(d)
 
 
+def reload_settings(dc, sc, res, rng, shards, label):
+    """A setting changed through one handle and reloaded (reset(key)) through another takes effect in every shard of the
+    reloading handle, as it does for an unsharded cache."""
+    d = sc.new()
+    a = dc.FanoutCache(d, shards=shards)
+    b = dc.FanoutCache(d, shards=shards)
+    try:
+        keys = list(range(40)) + ['s%d' % i for i in range(20)]
+        for k in keys:
+            a.set(k, k)
+        wit = {'label': label, 'shards': shards}
+        value = rng.choice([2**20, 2**22, 3 * 2**20]) * shards
+        a.reset('size_limit', value)
+        got = b.reset('size_limit')
+        stale = [i for i, sh in enumerate(b._shards) if sh.size_limit != value]
+        res.count('evaluations')
+        res.count('settings_reloaded_through_another_handle')
+        if got != value or stale:
+            res.violation('reset(size_limit) reloaded %r through a second handle, but its shards %r still hold the old value '
+                          '(new value %r)' % (got, stale, value), wit)
+            return
+        a.stats(enable=True)
+        b.reset('statistics')
+        for k in keys:
+            b.get(k)
+        for k in ('nope-1', 'nope-2', -77):
+            b.get(k)
+        hits, misses = a.stats()
+        if (hits, misses) != (len(keys), 3):
+            res.violation('after statistics were enabled through one handle and reloaded through another, %d lookups that '
+                          'hit and 3 that missed were counted as %r' % (len(keys), (hits, misses)), wit)
+            return
+        a.reset('cull_limit', 0)
+        b.reset('cull_limit')
+        b.reset('size_limit', 1)
+        n0 = len(b)
+        for i in range(30):
+            b.set('extra-%d' % i, i)
+        if len(b) != n0 + 30:
+            res.violation('cull_limit 0 was reloaded through a second handle, yet its writes evicted: %d items, expected %d' % (
+                len(b), n0 + 30), wit)
+    finally:
+        a.close()
+        b.close()
+        sc.drop(d)
+
+
 def run_shard(tier, seed, shard, nshards, res):
     dc = common.use_repo()
     probe.install()
@@ -446,6 +493,7 @@ def run_shard(tier, seed, shard, nshards, res):
                 partial_reopen(dc, sc, res, rng, shards, 'c13 partial reopen seed=%d shard=%d i=%d' % (seed, shard, i))
                 probe.set_clock(None)
                 skewed_cull(dc, sc, res, rng, shards, 'c13 skewed cull seed=%d shard=%d i=%d' % (seed, shard, i))
+                reload_settings(dc, sc, res, rng, shards, 'c13 reload settings seed=%d shard=%d i=%d' % (seed, shard, i))
             if res.counters.get('violations_raw', 0) > 8:
                 return
         probe.reset()
